@@ -58,6 +58,8 @@ NODELIB = {
     'PPT2R': [['pu2', {}], ['pu', {}], ['t2r', {}]],
     'PRT2': [['pu', {}], ['rl', {}], ['t2', {}]],    # chain pu -> rl (u->w), both feed t2
     'LO': [['lin', {'k': 3.5, 'x': 0.8}]],      # per-node overrides
+    'LTO': [['lin', {'k': 3.5, 'x': 0.8}], ['t1', {}]],   # two operators, only one of them overridden
+    'TLO': [['t1', {'v': 0.45}], ['lin', {}]],
 }
 QUICK_NODES = ['L', 'SA', 'AO', 'XV', 'T1', 'T2', 'T2R', 'TW', 'TU', 'LT', 'LS', 'PT', 'PPT2', 'PRT2', 'LO']
 SMALL_NODES = ['L', 'SA', 'T1', 'T2', 'LT', 'PPT2']
